@@ -3,16 +3,14 @@
   Imports models/specs only (never a proof file), so it still builds when a proof breaks.
 -/
 import PS.Sexp
-import PS.Drv.C20
+import PS.Drv.All
 open PS
-
-def handlers : List (Sexp → Option Sexp) := [PS.C20.handle]
 
 def answer (line : String) : String :=
   match Sexp.parse line with
   | none => "(error \"parse\")"
   | some req =>
-    match handlers.findSome? (fun h => h req) with
+    match PS.allHandlers.findSome? (fun h => h req) with
     | some r => toString r
     | none => "(error \"bad-request\")"
 
